@@ -275,6 +275,31 @@ pub fn cse(
         }
     }
 
+    // The result of an arithmetic operation depends on the flags register: with the wrapping or
+    // the unsafe math flag set it yields a value where it otherwise reverts. If the function changes
+    // the flags (e.g., an inlined `wrapping_add`), two such operations with equal operands are not
+    // interchangeable, so we don't value number them at all in that case.
+    let changes_flags = function.instruction_iter(context).any(|(_, inst)| {
+        matches!(
+            &inst.get_instruction(context).unwrap().op,
+            InstOp::AsmBlock(asm_block, _)
+                if asm_block.body.iter().any(|asm_op| asm_op.op_name.as_str() == "flag")
+        )
+    });
+    let is_flags_dependent = |context: &Context, inst: Value| {
+        matches!(
+            &inst.get_instruction(context).unwrap().op,
+            InstOp::BinaryOp {
+                op: BinaryOpKind::Add
+                    | BinaryOpKind::Sub
+                    | BinaryOpKind::Mul
+                    | BinaryOpKind::Div
+                    | BinaryOpKind::Mod,
+                ..
+            }
+        )
+    };
+
     // We need to iterate over the blocks in RPO.
     let post_order: &PostOrder = analyses.get_analysis_result(function);
 
@@ -337,7 +362,13 @@ pub fn cse(
 
             for (inst, expr_opt) in block
                 .instruction_iter(context)
-                .map(|instr| (instr, instr_to_expr(context, &vntable, instr)))
+                .map(|instr| {
+                    if changes_flags && is_flags_dependent(context, instr) {
+                        (instr, None)
+                    } else {
+                        (instr, instr_to_expr(context, &vntable, instr))
+                    }
+                })
                 .collect_vec()
             {
                 // lookup(expr, x)
